@@ -227,8 +227,9 @@ var weightedKeys = func() []string {
 
 var (
 	vocabFields = []string{"ID", "Name", "Nested", "Ptr", "List", "Dict", "Color", "Age", "Extra", "secret", "Next", "A", "B", "Full"}
-	vocabPaths  = []string{"Nested.A", "Ptr.A", "Next.Next.ID", "Next.Nested.B", "List.A", "Dict.A", "Full.X", "Nested", "Ptr", "Next", "."}
-	vocabFuncs  = []string{"NoArg", "NoArgString", "AgeToString", "AgeWithCtx", "ParseAge", "NewOut", "NewOutFrom", "Whole", "Generic", "InnerToInnerOut", "WithConv",
+	vocabPaths  = []string{"Nested.A", "Ptr.A", "Next.Next.ID", "Next.Nested.B", "List.A", "Dict.A", "Full.X", "Nested", "Ptr", "Next", ".",
+		"PStr.A", "PPtr.A", "PList.A", "Next.PStr.X", "Next.PPtr.A.B", "PStr", "PPtr"}
+	vocabFuncs = []string{"NoArg", "NoArgString", "AgeToString", "AgeWithCtx", "ParseAge", "NewOut", "NewOutFrom", "Whole", "Generic", "InnerToInnerOut", "WithConv",
 		"example.com/base/ext:IntToString", "example.com/base/ext:StringToInt", "example.com/base/ext:NewWrap", "../ext:IntToString", "./:Whole", "example.com/base/ext:.*", ".*", "Age.*"}
 	vocabEnum = []string{"ColorRed", "ColorGreen", "ColorBlue", "ShadeRed", "ShadeGreen", "ShadeBlue", "ShadeDark", "@error", "@panic", "@ignore"}
 )
